@@ -17,7 +17,9 @@ CONFIGS = [
     [("c2", L2), ("c1", L1), ("c2", L2)],
 ]
 PGRID_Q = [F(0), F(1, 20), F(3, 50), F(1, 10), F(1)]
-PGRID_T = [F(0), F(1, 100), F(1, 20), F(3, 50), F(1, 10), F(1, 2), F(1)]
+# (with values a few parts in a million above each risk limit: "at most the limit" is not "close to the limit")
+PGRID_T = [F(0), F(1, 100), F(1, 20), F(1, 20) * (1 + F(1, 2 ** 18)), F(3, 50), F(1, 10), F(1, 10) * (1 + F(1, 2 ** 18)),
+           F(1, 2), F(1)]
 
 
 def tla_r(x):
@@ -178,6 +180,19 @@ def run(pid, tier):
         behs += b3[:20000]
     if not behs:
         raise core.MachineryError("no behaviours generated")
+    # the boundary the statement names, for every configuration: every p-value exactly at its contest's limit (complete),
+    # and one assertion a few parts in a million above its limit with every other one at or below (not complete)
+    def fs(x):
+        return f"{x.numerator}/{x.denominator}"
+    for cf in CONFIGS:
+        conf = [{"con": c, "lim": fs(l)} for c, l in cf]
+        at = [{"p": fs(l), "n": 2} for _, l in cf]
+        behs.append({"conf": conf, "hist": [{"act": "setp", "ps": at}, {"act": "summarize", "ps": []}]})
+        for a in range(len(cf)):
+            for eps in (F(1, 2 ** 18), F(1, 2 ** 30)):
+                ps = [dict(x) for x in at]
+                ps[a] = {"p": fs(cf[a][1] * (1 + eps)), "n": 2}
+                behs.append({"conf": conf, "hist": [{"act": "setp", "ps": ps}, {"act": "summarize", "ps": []}]})
     recs = []
     for k, b in enumerate(behs):
         recs += replay(f"b{k}", b, rng)
